@@ -674,6 +674,10 @@ def call_builtin_method(I, obj, name, args, kw):
             return None
         if name == "copy":
             return obj
+    if isinstance(obj, (Sym, SymC, int, Fraction)) and name in ("astype", "copy", "compute", "squeeze", "get"):
+        return obj
+    if isinstance(obj, SymC) and name in ("conj", "conjugate"):
+        return SymC(obj.re, v_neg(obj.im))
     if isinstance(obj, (Sym, int, Fraction)):
         if name == "item":
             return obj
@@ -720,13 +724,13 @@ def pointwise_getitem(I, obj, idx):
 # ---- numpy / math ----------------------------------------------------------------------------
 
 PI = z3.Real("pi")
-PI_FACTS = [PI > z3.RealVal("3.14159265358979"), PI < z3.RealVal("3.14159265358980")]
+PI_FACTS = [PI > z3.RealVal("3.1415926"), PI < z3.RealVal("3.1415927")]
 
 
 def pi_value(I):
     for f in PI_FACTS:
         I.ctx.fact(f)
-    I.ctx.trusted.add("numpy.pi as a real constant with 3.14159265358979 < pi < 3.14159265358980")
+    I.ctx.trusted.add("numpy.pi as a real constant with 3.1415926 < pi < 3.1415927")
     return Sym(PI, "real")
 
 
@@ -1066,3 +1070,87 @@ def _config_get(I, args, kw):
 
 
 _EXTERNALS["abtem.core.config.get"] = ExternalFn("abtem.core.config.get", _config_get)
+
+
+class DDict(dict):
+    factory = None
+
+
+@_ext("collections.defaultdict")
+def c_defaultdict(I, args, kw):
+    d = DDict()
+    if len(args) > 1:
+        d.update(args[1])
+    d.factory = args[0]
+    return d
+
+
+def _identity0(I, args, kw):
+    return args[0]
+
+
+for _n in ("numpy.expand_dims", "numpy.asarray", "numpy.squeeze", "numpy.ascontiguousarray", "numpy.real_if_close"):
+    if _n not in _EXTERNALS or _n == "numpy.asarray":
+        pass
+_EXTERNALS["numpy.expand_dims"] = ExternalFn("numpy.expand_dims", _identity0)
+
+
+def _np_asarray(I, args, kw):
+    x = args[0]
+    if isinstance(x, (tuple, list)):
+        return Arr(x)
+    return x
+
+
+_EXTERNALS["numpy.asarray"] = ExternalFn("numpy.asarray", _np_asarray)
+_EXTERNALS["numpy.array"] = ExternalFn("numpy.array", _np_asarray)
+
+
+@_ext("numpy.zeros")
+def np_zeros(I, args, kw):
+    if not I.options.get("pointwise"):
+        raise Unsupported("np.zeros outside pointwise mode")
+    return 0
+
+
+@_ext("numpy.ones")
+def np_ones(I, args, kw):
+    if not I.options.get("pointwise"):
+        raise Unsupported("np.ones outside pointwise mode")
+    return 1
+
+
+_EXTERNALS["numpy.zeros_like"] = _EXTERNALS["numpy.zeros"]
+_EXTERNALS["numpy.ones_like"] = _EXTERNALS["numpy.ones"]
+
+
+@_ext("abtem.core.backend.get_array_module")
+def a_get_array_module(I, args, kw):
+    I.ctx.trusted.add("get_array_module(...) is numpy (cpu device)")
+    return ModuleRef("numpy")
+
+
+@_ext("abtem.core.utils.get_dtype")
+def a_get_dtype(I, args, kw):
+    return TypeRef("dtype")
+
+
+@_ext("abtem.core.complex.complex_exponential")
+def a_complex_exponential(I, args, kw):
+    I.ctx.trusted.add("ASSUMED contract: complex_exponential(x) == cos(x) + i sin(x) (Numba kernel, not extracted)")
+    x = args[0]
+    return SymC(I.ctx.uf_apply("cos", [x]), I.ctx.uf_apply("sin", [x]))
+
+
+@_ext("abtem.core.utils.expand_dims_to_broadcast")
+def a_expand_dims_to_broadcast(I, args, kw):
+    if not I.options.get("pointwise"):
+        raise Unsupported("expand_dims_to_broadcast outside pointwise mode")
+    I.ctx.trusted.add("A-POINTWISE: broadcasting helpers are identity on one array element")
+    return tuple(args) if len(args) > 1 else args[0]
+
+
+@_ext("abtem.core.complex.abs2")
+def a_abs2(I, args, kw):
+    x = as_complex(args[0])
+    return v_add(v_mul(x.re, x.re), v_mul(x.im, x.im))
